@@ -2,6 +2,7 @@ package main
 
 import (
 	"fmt"
+	"go/ast"
 	"go/token"
 	"go/types"
 	"regexp"
@@ -245,12 +246,27 @@ func (fc *FnCtx) instr(ins ssa.Instruction) {
 	g := fc.g
 	switch x := ins.(type) {
 	case *ssa.DebugRef:
+		// source-level names of locals (for loop invariants)
+		if id, ok := x.Expr.(*ast.Ident); ok && !x.IsAddr {
+			if v, ok := fc.vals[x.X]; ok {
+				if fc.debugNames == nil {
+					fc.debugNames = map[string]Val{}
+				}
+				fc.debugNames[id.Name] = Val{t: v.t, ty: x.X.Type(), tuple: v.tuple}
+			}
+		}
 	case *ssa.If, *ssa.Jump:
 		fc.setEdges(ins.Block())
 	case *ssa.Return:
 		var rs []Val
 		for _, r := range x.Results {
 			rs = append(rs, fc.term(r))
+		}
+		if !fc.inlined {
+			// vacuity guard: every return statement must be reachable under the assumptions made so far
+			g.seq++
+			p := g.ld.fset.Position(posOf(ins))
+			g.obligs = append(g.obligs, &Oblig{Name: fmt.Sprintf("%s#cover(return@%d)", relFuncName(g.rootFn), len(fc.rets)+1), Kind: "cover", Func: relFuncName(fc.fn), Pos: p, seq: g.seq, reach: fc.curReach, goal: "false"})
 		}
 		fc.pendingResults = rs
 		fc.applyGhostSets("return")
